@@ -345,6 +345,8 @@ def run(ck, tier):
     cx = Ctx()
     ck.guard(r1_r2, ck, cx)
     ck.guard(r3_fc_pairing, ck, cx)
+    from .c01 import r7_register_keeps_tables
+    ck.guard(r7_register_keeps_tables, ck, cx, 'R3')
     ck.guard(r4_who_may_send, ck, cx)
     ck.guard(r5_per_connection_framer, ck, cx)
     ck.guard(r6_signature, ck, cx)
